@@ -128,6 +128,19 @@ Proof.
   intros. unfold subroutine_text. destruct (vt_sg ret), (vt_w ret) as [|p]; vm_compute; reflexivity.
 Qed.
 
+(* ------------------------------------------------------------------ PostfixIncDec.il_exec: the new value of x++ / x-- *)
+(* (model/Lower.v, postfix ++ / --: the operand is set / written to PIncDec inc (read of the operand) (width of its type); the other four
+   members of HybridType make the method raise) *)
+Theorem postfixincdec_text_ok : forall op a b tself t0 t1 ib0 ic0 ib1 ic1 il0 v0, In op ["++"; "--"] ->
+  elab_text a b (postfixincdec_text op tself t0 t1 ib0 ic0 ib1 ic1 il0 v0) = Some (PIncDec (String.eqb op "++") a (vt_w tself)).
+Proof.
+  intros op a b tself t0 t1 ib0 ic0 ib1 ic1 il0 v0 Hin. cbn [In] in Hin.
+  destruct Hin as [<- | [<- | []]]; unfold postfixincdec_text, elab_text; destruct (vt_w tself); vm_compute; reflexivity.
+Qed.
+Lemma postfixincdec_text_other : forall op tself t0 t1 ib0 ic0 ib1 ic1 il0 v0, In op ["call"; "sub_routine_call"; "sub_routine"; "gcc_expr"] ->
+  postfixincdec_text op tself t0 t1 ib0 ic0 ib1 ic1 il0 v0 = None.
+Proof. intros op tself t0 t1 ib0 ic0 ib1 ic1 il0 v0 Hin. cbn [In] in Hin. repeat (destruct Hin as [<- | Hin]; [reflexivity|]). contradiction. Qed.
+
 (* ------------------------------------------------------------------ the value-type helpers, on their whole domains *)
 Definition otype_eqb (a b : option (bool * N)) : bool :=
   match a, b with
